@@ -59,7 +59,8 @@ Fixpoint env_insert_comps (e : senv) (av : aview) (ent : entity) (cs : comps) : 
       | None => env_insert_comps (env_cx e (cx_drop (cx_fail (se_cx e)) v)) av ent cs'
       | Some ms =>
           let '(ms1, r, c1) := st_insert ms av ent v (se_cx e) in
-          let c2 := match r with InsErr _ => cx_fail c1 | _ => c1 end in
+          (* a value already there (the same component type attached twice) is swapped out and destroyed *)
+          let c2 := match r with InsErr _ => cx_fail c1 | InsOld t => cx_drop c1 t | _ => c1 end in
           env_insert_comps (env_put e sid ms1 c2) av ent cs'
       end
   end.
